@@ -386,7 +386,7 @@ func (w *world) driveOne(a *acc, op *opA, p, q string, tokenSeed string) {
 				a.violate("wrong-target|"+e.Op+"|"+e.Arg, fmt.Sprintf("%s(%q%s) under root %q reached %s but the spelling denotes %s",
 					op.name, p, other(q), w.rootSpelling, locString(got), locString(want)), describe(w, op.name, p, q, evs, err))
 			}
-			if e.Err == nil && err != nil {
+			if e.Err == nil && err != nil && !strings.HasPrefix(op.name, "afero.") {
 				a.violate("inside-op-fails|"+op.name, fmt.Sprintf("%s(%q) under root %q: the underlying call succeeded but the wrapper returned %v", op.name, p, w.rootSpelling, err),
 					describe(w, op.name, p, q, evs, err))
 			}
